@@ -2,7 +2,7 @@
 from z3 import And, BoolSort, ForAll, If, Implies, Int, IntSort, IntVal, MultiPattern, Not, Or, Real, RealSort, RealVal, ToReal
 
 from .engine import (FV, INF, NINF, UF, Axis, EnumVal, Obj, T, Unsupported, b_and, b_not, b_or, boollike, intlike,
-                     is_scalar, is_sym, ite, lift, pyint, toB, toI, toR)
+                     is_scalar, is_sym, ite, lift, pyint, same_size, toB, toI, toR)
 from .prims import PRIMS, as_tensor, from_list, items_of, mk_array, prim, sel
 
 
@@ -271,15 +271,31 @@ def p_maskselect(ex, path, a, mask):
         out.mask = (a.axes[0], mask)
         return out
     n = toI(a.axes[0].size)
-    m = ex.new_int("msel_len")
-    sigma = _Fn(f"sigma!{next(ex.fresh)}", IntSort(), IntSort())
-    rho = _Fn(f"rho!{next(ex.fresh)}", IntSort(), IntSort())
-    i, j = Int("i!ms"), Int("j!ms")
-    path.add(And(0 <= m, m <= n))
-    path.add(ForAll([i], Implies(And(0 <= i, i < m), And(0 <= sigma(i), sigma(i) < n, toB(mask.elem(sigma(i))), rho(sigma(i)) == i)), patterns=[sigma(i)]))
-    path.add(ForAll([i, j], Implies(And(0 <= i, i < j, j < m), sigma(i) < sigma(j)), patterns=[MultiPattern(sigma(i), sigma(j))]))
-    path.add(ForAll([i], Implies(And(0 <= i, i < n, toB(mask.elem(i))), And(0 <= rho(i), rho(i) < m, sigma(rho(i)) == i)), patterns=[rho(i)]))
-    out = T((Axis("msel", m),), lambda k, a=a, sigma=sigma: a.elem(sigma(toI(k))), kind=a.kind, prov="fresh")
+    # the selection map depends on the mask only: two arrays compressed by the same mask object share sigma / rho / length
+    memo = ex.__dict__.setdefault("msel_memo", {})
+    hit = memo.get(id(mask))
+    if hit is not None and hit[0] is mask:
+        _, m, sigma, rho, facts, ax = hit
+        have = {f.get_id() for f in path.pc}
+        for f in facts:
+            if f.get_id() not in have:
+                path.add(f)
+    else:
+        m = ex.new_int("msel_len")
+        sigma = _Fn(f"sigma!{next(ex.fresh)}", IntSort(), IntSort())
+        rho = _Fn(f"rho!{next(ex.fresh)}", IntSort(), IntSort())
+        i, j = Int("i!ms"), Int("j!ms")
+        facts = [And(0 <= m, m <= n),
+                 ForAll([i], Implies(And(0 <= i, i < m), And(0 <= sigma(i), sigma(i) < n, toB(mask.elem(sigma(i))), rho(sigma(i)) == i)), patterns=[sigma(i)]),
+                 ForAll([i, j], Implies(And(0 <= i, i < j, j < m), sigma(i) < sigma(j)), patterns=[MultiPattern(sigma(i), sigma(j))]),
+                 ForAll([i], Implies(And(0 <= i, i < n, toB(mask.elem(i))), And(0 <= rho(i), rho(i) < m, sigma(rho(i)) == i)), patterns=[rho(i)])]
+        for f in facts:
+            path.add(f)
+        ax = Axis("msel", m)
+        memo[id(mask)] = (mask, m, sigma, rho, facts, ax)
+    if not same_size(a.axes[0].size, mask.axes[0].size):
+        ex.oblige("boolean index has the length of the indexed axis", path, n == toI(mask.axes[0].size), "precondition")
+    out = T((ax,), lambda k, a=a, sigma=sigma: a.elem(sigma(toI(k))), kind=a.kind, prov="fresh")
     out.select_of = (a, mask, sigma, rho, m)
     return out
 
